@@ -108,6 +108,7 @@ type Machine struct {
 	unknownLabels []string
 	normBuf    []value
 	lastRand   value
+	absDone    map[*Term]bool
 
 	// stats (accumulated across paths)
 	instrs int64
@@ -136,6 +137,7 @@ func (m *Machine) resetPath(prefix []int) {
 	m.panicOK = false
 	m.curFrame = nil
 	m.normBuf = nil
+	m.absDone = nil
 }
 
 // addPC asserts t on the current path.
